@@ -132,6 +132,13 @@ def run(chk: Check):
                              if not fs[j]["pair"] and fs[i]["ftype"] in PARSED and fs[j]["ftype"] in SAMPLE
                              and fs[i]["chain"][0] > max(fs[j]["chain"]))
             return n
+        def late_dirs(c):       # volumes (with >= 2 sample files) whose file table lies physically BEHIND the data of all its files
+            return sum(1 for p in c["parts"] for v in p["vols"]
+                       if sum(1 for f in v["files"] if f["ftype"] in SAMPLE) >= 2 and min(v["dir"]) > max(x for f in v["files"] for x in f["chain"]))
+        late = [c for c in sorted(cases, key=lambda c: -late_dirs(c)) if late_dirs(c) > 0][:(2 if not thorough else 8)]
+        chk.extra["late_directory_layouts"] = [late_dirs(c) for c in late]
+        if not late:
+            raise tlc.TlcError("no generated AKAI image has a file table behind the data of its files")
         inv = [c for c in sorted(cases, key=lambda c: -inversions(c)) if inversions(c) > 0][:(3 if not thorough else 10)]
         chk.extra["inverted_layouts"] = [inversions(c) for c in inv]
         if not inv:
@@ -139,8 +146,8 @@ def run(chk: Check):
         pick = sorted(cases, key=lambda c: (-len(c["parts"]), -sum(len(v["files"]) for p in c["parts"] for v in p["vols"])))
         pick = (pick[:3] + [c for c in cases if any(f["pair"] for p in c["parts"] for v in p["vols"] for f in v["files"])][:2]) if not thorough else \
                (pick[:12] + [c for c in cases if any(f["pair"] for p in c["parts"] for v in p["vols"] for f in v["files"])][:8])
-        pick = inv + [c for c in pick if c not in inv]
-        fielded = sorted(pick, key=lambda c: (-len(c["parts"]), -len(c["needs"])))[:3]
+        pick = inv + [c for c in late if c not in inv] + [c for c in pick if c not in inv and c not in late]
+        fielded = late[:1] + sorted(pick, key=lambda c: (-len(c["parts"]), -len(c["needs"])))[:3]
         for ci, case in enumerate(pick):
             image = aw.build_image(case, chk.seed + ci)
             full = export_observed(image, work, "image.img")
